@@ -128,7 +128,7 @@ var c11ops = Register(&Prop[OpCase]{ID: "C11", Name: "small-programs", Check: ch
 var c11stress = Register(&Prop[StressCase]{ID: "C11", Name: "stress", Check: checkC11Stress})
 
 func TestC11(t *testing.T) {
-	R.Rule = "accepted programs: all single applications of every built-in over small pools (exhaustive within the pools), random programs of fuel 5 with intrinsics, conditionals and harness-registered strict and lazy functions, and stress classes (literals with 43..600 and, thorough, 65 535 / 65 536 members, > 255 constants, conditionals whose arms exceed 255 bytes, nested thunks); oracle: bytecode verifier over the hook's (code, constants) and recursively every thunk body - complete decode into known instructions, operand range and kind, jump targets later and on a boundary, one stack depth per instruction on all paths, deferred arguments are thunk constants, exactly 1 at the final reachable RETURN, longest path <= #instructions; non-trivial = code with a jump, a thunk, or an operand > 255"
+	R.Rule = "accepted programs: all single applications of every built-in over small pools (exhaustive within the pools), random programs of fuel 5 with intrinsics, conditionals and harness-registered strict and lazy functions, and stress classes (literals with 43..600 and, thorough, 65 535 / 65 536 members, calls of strict and lazy host functions with 254..257 arguments, > 255 constants, conditionals whose arms exceed 255 bytes, nested thunks); oracle: bytecode verifier over the hook's (code, constants) and recursively every thunk body - complete decode into known instructions, operand range and kind, jump targets later and on a boundary, one stack depth per instruction on all paths, deferred arguments are thunk constants, exactly 1 at the final reachable RETURN, longest path <= #instructions; non-trivial = code with a jump, a thunk, or an operand > 255"
 	R.Assume = []string{"the per-opcode stack effects in run/bcverify.go (DESIGN.md Appendix B)", "hook vm.VerifCompile returns the program vm.Compile would run"}
 	reportKnown(t, "C11")
 	runRegress(t, "C11")
